@@ -151,7 +151,7 @@ func c08Stream(c *Check, rule string, r *RuleCtx, signer bool) (w types.Object, 
 		if src == body {
 			continue
 		}
-		defs, ok := r.ReachingDefsDeep(src, pt, nil, 3)
+		defs, ok := r.ReachingDefsDeep(src, pt, nil, 0)
 		if !ok && len(defs) == 0 {
 			// tuple definition `r, err := body.Open()`
 			if d, n := localDef(info, r.FI.Decl.Body, src); n == 1 && d != nil {
@@ -301,7 +301,11 @@ func c08SignSequence(c *Check) {
 				}
 				if id, ok := n.(*ast.Ident); ok {
 					if o := objOf(info, id); o != nil && localIn(r.FI.Decl.Body, o) {
-						if d, n := localDef(info, r.FI.Decl.Body, o); n == 1 && d != nil {
+						defs, _ := r.ReachingDefsDeep(o, pt, nil, 0)
+						if d, n := localDef(info, r.FI.Decl.Body, o); n >= 1 && d != nil {
+							defs = append(defs, d)
+						}
+						for _, d := range defs {
 							for _, cc := range callsIn(d) {
 								if isSig(info, cc) {
 									has = true
@@ -415,7 +419,17 @@ func c08Directives(r *RuleCtx) map[string]*c08Dir {
 			}
 		}
 		if fn.Name() == "Enum" && len(call.Args) == 6 {
-			if cl, ok := ast.Unparen(call.Args[3]).(*ast.CompositeLit); ok {
+			lst := ast.Unparen(call.Args[3])
+			if o := objOf(r.Info, lst); o != nil {
+				if dd, n := localDef(r.Info, r.FI.Decl.Body, o); n == 1 && dd != nil {
+					lst = ast.Unparen(dd)
+				} else if v, isVar := o.(*types.Var); isVar {
+					if init := r.C.P.globalInit(v); init != nil {
+						lst = ast.Unparen(init)
+					}
+				}
+			}
+			if cl, ok := lst.(*ast.CompositeLit); ok {
 				d.allowed = cl.Elts
 			}
 			d.def = call.Args[4]
@@ -619,15 +633,18 @@ func c08Options(c *Check) {
 				ok = f == d.field
 			} else if o != nil {
 				// every definition of the local derives from the field: the field itself or a conversion of the local
+				// (or of a copy of it that a helper read in place left behind)
 				ok = true
 				n := 0
+				same := copyClosure(info, r.FI.Decl.Body, o)
+				same[o] = true
 				ast.Inspect(r.FI.Decl.Body, func(x ast.Node) bool {
 					as, isA := x.(*ast.AssignStmt)
 					if !isA {
 						return true
 					}
 					for i, l := range as.Lhs {
-						if objOf(info, l) != o {
+						if !same[objOf(info, l)] {
 							continue
 						}
 						n++
@@ -644,8 +661,14 @@ func c08Options(c *Check) {
 						if fieldOf(info, ast.Unparen(rhs)) == d.field {
 							continue
 						}
-						if cc, isC := ast.Unparen(rhs).(*ast.CallExpr); isC && isCall(info, cc, "golang.org/x/net/idna.ToASCII", "golang.org/x/net/idna.Profile.ToASCII") && len(cc.Args) == 1 && objOf(info, cc.Args[0]) == o {
+						if cc, isC := ast.Unparen(rhs).(*ast.CallExpr); isC && isCall(info, cc, "golang.org/x/net/idna.ToASCII", "golang.org/x/net/idna.Profile.ToASCII") && len(cc.Args) == 1 && same[objOf(info, cc.Args[0])] {
 							continue
+						}
+						if ro := objOf(info, rhs); ro != nil && same[ro] {
+							continue
+						}
+						if sv, isC := c08ConstStr(info, rhs); isC && sv == "" {
+							continue // the failure tuple of a helper read in place (`domain, selector, ok = "", "", false`): go-msgauth refuses an empty selector
 						}
 						ok = false
 					}
@@ -842,6 +865,37 @@ func c08Fields(c *Check) {
 	})
 	seenLoop := map[*types.Var]bool{}
 	var resObj types.Object
+	// the list that is returned, and everything that is a copy of it or that it is a copy of (helpers read in place
+	// leave `list := res … res = list` behind)
+	returned := map[types.Object]bool{}
+	inspectNoLit(fi.Decl.Body, func(x ast.Node) bool {
+		if ret, ok := x.(*ast.ReturnStmt); ok && fi != rb.FI && len(ret.Results) == 1 {
+			if o := objOf(info, ret.Results[0]); o != nil {
+				returned[o] = true
+			}
+		}
+		return true
+	})
+	isAcc := func(o types.Object) bool {
+		if o == nil {
+			return false
+		}
+		if len(returned) == 0 {
+			return true
+		}
+		for q := range copyClosure(info, fi.Decl.Body, o) {
+			if returned[q] {
+				return true
+			}
+		}
+		for ro := range returned {
+			if copyClosure(info, fi.Decl.Body, ro)[o] {
+				return true
+			}
+		}
+		return false
+	}
+	hdrSet := copyClosure(info, fi.Decl.Body, fhdr)
 	for _, l := range loops {
 		f := fieldOf(info, ast.Unparen(l.List))
 		seenLoop[f] = true
@@ -850,7 +904,16 @@ func c08Fields(c *Check) {
 			kind = "oversign_fields"
 		}
 		// appends of the element to an accumulator: inside an inner loop over the header's instances of the element, and directly
-		inner, direct := 0, 0
+		elemSet := copyClosure(info, fi.Decl.Body, l.ElemObj())
+		isElemX := func(e ast.Expr) bool {
+			if l.IsElem(e) {
+				return true
+			}
+			o := objOf(info, e)
+			return o != nil && l.ElemObj() != nil && elemSet[o]
+		}
+		inner, direct, conditional := 0, 0, 0
+		condDepth := 0
 		var innerOK = true
 		var walk func(n ast.Node, inInner bool)
 		walk = func(n ast.Node, inInner bool) {
@@ -861,12 +924,26 @@ func c08Fields(c *Check) {
 				switch s := x.(type) {
 				case *ast.FuncLit:
 					return false
+				case *ast.IfStmt:
+					// an append that depends on something else than the duplicate filter (a flag parameter of a merged
+					// helper) cannot be counted: the duplicate filter itself is of the form `if seen { continue }` and
+					// has no append inside
+					if s.Init != nil {
+						walk(s.Init, inInner)
+					}
+					condDepth++
+					walk(s.Body, inInner)
+					if s.Else != nil {
+						walk(s.Else, inInner)
+					}
+					condDepth--
+					return false
 				case *ast.ForStmt, *ast.RangeStmt:
 					// an inner loop: counts when it iterates over the header parameter's fields with the element as key
 					ok := false
 					ast.Inspect(s, func(y ast.Node) bool {
-						if cc, isC := y.(*ast.CallExpr); isC && recvObj(info, cc) == fhdr && (methodName(cc) == "FieldsByKey" || methodName(cc) == "Values") {
-							if len(cc.Args) == 1 && l.IsElem(cc.Args[0]) {
+						if cc, isC := y.(*ast.CallExpr); isC && hdrSet[recvObj(info, cc)] && (methodName(cc) == "FieldsByKey" || methodName(cc) == "Values") {
+							if len(cc.Args) == 1 && isElemX(cc.Args[0]) {
 								ok = true
 							}
 						}
@@ -890,15 +967,17 @@ func c08Fields(c *Check) {
 						}
 						if o, args := appendTarget(info, lh, s.Rhs[i]); o != nil {
 							for _, a := range args {
-								if l.IsElem(a) {
+								if isElemX(a) {
 									if resObj == nil {
 										resObj = o
 									}
-									if o != resObj {
+									if !isAcc(o) {
 										innerOK = false
 									}
 									if inInner {
 										inner++
+									} else if condDepth > 0 {
+										conditional++
 									} else {
 										direct++
 									}
@@ -912,7 +991,10 @@ func c08Fields(c *Check) {
 		}
 		walk(l.Body, false)
 		c.Hold("R3", fi.Name()+":"+kind+":per-instance", pos, inner == 1 && innerOK, "a field of "+kind+" is not listed exactly once per instance found in the header parameter (loop over h.FieldsByKey(key) appending key): an instance that is not listed is not signed and can be altered, one listed too often counts as over-signed")
-		if f == over.field {
+		if conditional > 0 {
+			// the extra entry is decided by a run-time condition (one loop serving both lists): not judged
+			c.Hold("R3", fi.Name()+":"+kind+":once-more-conditional", pos, true, "")
+		} else if f == over.field {
 			c.Hold("R3", fi.Name()+":"+kind+":once-more", pos, direct == 1, "an over-signed field is not listed exactly once more than it occurs (found "+itoa(direct)+" additional entries): without the extra entry a field of that name added at the next hop leaves the signature valid")
 		} else {
 			c.Hold("R3", fi.Name()+":"+kind+":no-extra", pos, direct == 0, "a field of sign_fields gets "+itoa(direct)+" additional entries: it is over-signed although the configuration asks for plain signing (a list manager that adds Resent-* / List-* fields breaks every signature)")
@@ -954,7 +1036,7 @@ func c08Fields(c *Check) {
 	inspectNoLit(fi.Decl.Body, func(x ast.Node) bool {
 		if ret, ok := x.(*ast.ReturnStmt); ok && fi != rb.FI {
 			nRet++
-			if len(ret.Results) != 1 || objOf(info, ret.Results[0]) != resObj {
+			if len(ret.Results) != 1 || !isAcc(objOf(info, ret.Results[0])) {
 				okRet = false
 			}
 		}
@@ -1075,7 +1157,11 @@ func c08Keys(c *Check) {
 			case s == "ed25519":
 				want = "crypto/ed25519.GenerateKey"
 			}
-			c.HoldConst("R4", "generateAndWrite:algo:"+s, pos, gen != "" && (want == "" || gen == want), "algorithm "+s+" admitted by newkey_algo is generated by "+gen+" (want "+want+")")
+			okGen := gen != "" && (want == "" || gen == want)
+			if !okGen && strings.HasPrefix(s, "rsa") && gen == "crypto/rsa.GenerateKey" {
+				okGen = true // the size is a variable (cases merged): kind judged, size not
+			}
+			c.HoldConst("R4", "generateAndWrite:algo:"+s, pos, okGen, "algorithm "+s+" admitted by newkey_algo is generated by "+gen+" (want "+want+")")
 			// k= tag: default = the label itself unless overridden
 			tag := s
 			if n, ok := nameByLabel[s]; ok {
@@ -1191,6 +1277,32 @@ func c08Keys(c *Check) {
 			}
 			return true
 		})
+		if parseFn == "" && pemType != "" {
+			// if-chain form: `if block.Type == "PRIVATE KEY" { key, err = x509.ParsePKCS8PrivateKey(…) }`
+			ast.Inspect(ld.FI.Decl.Body, func(n ast.Node) bool {
+				ifs, ok := n.(*ast.IfStmt)
+				if !ok {
+					return true
+				}
+				hit := false
+				ast.Inspect(ifs.Cond, func(y ast.Node) bool {
+					if e, ok := y.(ast.Expr); ok {
+						if sv, ok := c08ConstStr(ld.Info, e); ok && sv == pemType {
+							hit = true
+						}
+					}
+					return true
+				})
+				if hit {
+					for _, call := range callsIn(ifs.Body) {
+						if q := qname(callee(ld.Info, call)); strings.HasPrefix(q, "crypto/x509.Parse") {
+							parseFn = strings.TrimPrefix(q, "crypto/x509.Parse")
+						}
+					}
+				}
+				return true
+			})
+		}
 		c.HoldConst("R4", "key-file:pem-type", pos, pemType != "" && blobOK && marshalFn != "" && parseFn == marshalFn, "the key file is written as PEM type '"+pemType+"' with x509.Marshal"+marshalFn+" but that type is read back with x509.Parse"+parseFn+": the key generated at the first start cannot be loaded at the second")
 	}
 	// the record: p= is the base64 of the public half of the parameter
@@ -1269,18 +1381,65 @@ func c08HandOn(c *Check) {
 		for i, call := range calls {
 			n++
 			key := fi.Name() + ":data" + itoa(i+1)
-			if hdr == nil || body == nil || len(call.Args) < 3 {
+			// header and body may also travel as fields of a parameter (`job bodyJob` grouping the arguments)
+			var rootedAtParam func(e ast.Expr, pkg, typ string) bool
+			rootedAtParam = func(e ast.Expr, pkg, typ string) bool {
+				e = ast.Unparen(e)
+				if e == nil {
+					return false
+				}
+				if t := info.TypeOf(e); t == nil || !typeIs(derefAll(t), pkg, typ) {
+					return false
+				}
+				// a field of a local argument group built in this function (`job := bodyJob{header: header, body: b}`,
+				// what a helper read in place leaves behind): the value the field was given
+				if se, isS := e.(*ast.SelectorExpr); isS {
+					if o := objOf(info, se.X); o != nil && localIn(fi.Decl.Body, o) {
+						if d, nd := localDef(info, fi.Decl.Body, o); nd == 1 && d != nil {
+							dd := ast.Unparen(d)
+							if u, isU := dd.(*ast.UnaryExpr); isU {
+								dd = ast.Unparen(u.X)
+							}
+							if cl, isCl := dd.(*ast.CompositeLit); isCl {
+								for _, el := range cl.Elts {
+									if kv, isKV := el.(*ast.KeyValueExpr); isKV {
+										if id, isId := kv.Key.(*ast.Ident); isId && id.Name == se.Sel.Name {
+											return rootedAtParam(kv.Value, pkg, typ)
+										}
+									}
+								}
+							} else if oo := objOf(info, dd); oo != nil {
+								// a copy of a parameter struct
+								if v, isVar := oo.(*types.Var); isVar && isParamOrResult(fi, v) {
+									return true
+								}
+							}
+						}
+					}
+				}
+				for {
+					se, isS := e.(*ast.SelectorExpr)
+					if !isS {
+						break
+					}
+					e = ast.Unparen(se.X)
+				}
+				o := objOf(info, e)
+				v, isVar := o.(*types.Var)
+				return isVar && isParamOrResult(fi, v)
+			}
+			if len(call.Args) < 3 || ((hdr == nil || body == nil) && !rootedAtParam(call.Args[1], tpPkgPath, "Header")) {
 				c.Hold("R6", key, call.Pos(), false, "the message is sent from a function that has no header / body parameter: what is sent is not what the caller signed")
 				continue
 			}
-			okH := c08IsHdr(info, call.Args[1], hdr)
+			okH := c08IsHdr(info, call.Args[1], hdr) || rootedAtParam(call.Args[1], tpPkgPath, "Header")
 			okB := false
 			why := ""
 			if o := objOf(info, call.Args[2]); o != nil {
-				if o == body {
+				if o == body && body != nil {
 					okB = true
 				} else if d, nd := localDef(info, fi.Decl.Body, o); nd == 1 && d != nil {
-					if dc, isC := ast.Unparen(d).(*ast.CallExpr); isC && methodName(dc) == "Open" && recvObj(info, dc) == body {
+					if dc, isC := ast.Unparen(d).(*ast.CallExpr); isC && methodName(dc) == "Open" && ((body != nil && recvObj(info, dc) == body) || rootedAtParam(callRecv(dc), modPath+"/framework/buffer", "Buffer")) {
 						okB = true
 					} else {
 						why = exprStr(d)
@@ -1294,6 +1453,9 @@ func c08HandOn(c *Check) {
 			// the header parameter is not modified in this function before the call
 			mut := false
 			ast.Inspect(fi.Decl.Body, func(x ast.Node) bool {
+				if hdr == nil {
+					return false
+				}
 				if st, ok := x.(ast.Stmt); ok && x.Pos() < call.Pos() {
 					if _, isBlock := st.(*ast.BlockStmt); !isBlock {
 						switch st.(type) {
@@ -1393,9 +1555,19 @@ func c08Verifier(c *Check) {
 		return
 	}
 	l := loops[0]
-	isErrOfElem := func(e ast.Expr) bool {
-		se, ok := ast.Unparen(e).(*ast.SelectorExpr)
-		return ok && se.Sel.Name == "Err" && l.IsElem(se.X)
+	var isErrOfElem func(e ast.Expr) bool
+	isErrOfElem = func(e ast.Expr) bool {
+		e = ast.Unparen(e)
+		if se, ok := e.(*ast.SelectorExpr); ok {
+			return se.Sel.Name == "Err" && l.IsElem(se.X)
+		}
+		// `if sigErr := verif.Err; sigErr != nil`
+		if o := objOf(info, e); o != nil && localIn(r.FI.Decl.Body, o) {
+			if d, n := localDef(info, r.FI.Decl.Body, o); n == 1 && d != nil && d != e {
+				return isErrOfElem(d)
+			}
+		}
+		return false
 	}
 	// edges that contradict "Err != nil"
 	errWorld := r.AvoidEdges(func(cond ast.Expr, isCase bool) (int, bool) {
@@ -1432,6 +1604,12 @@ func c08Verifier(c *Check) {
 				if o := objOf(info, as.Lhs[0]); o != nil && !within(l.Body, declNode(r, o)) {
 					flagPts = append(flagPts, pt)
 				}
+			}
+		}
+		// a counter of good signatures instead of a flag
+		if inc, ok := n.(*ast.IncDecStmt); ok && inc.Tok == token.INC {
+			if o := objOf(info, inc.X); o != nil && localIn(r.FI.Decl.Body, o) && !within(l.Body, declNode(r, o)) && o != l.Idx {
+				flagPts = append(flagPts, pt)
 			}
 		}
 	}
